@@ -62,6 +62,8 @@ def json_to_val(j):
         return Fraction(j["n"], j["d"])
     if k == "flt":
         return j["n"] / j["d"]
+    if k == "fstr":          # a float constant carried by its repr (outside the exact model)
+        return float(j["s"])
     if k == "tup":
         return tuple(json_to_val(i) for i in j["items"])
     if k == "list":
@@ -166,6 +168,8 @@ def to_json(e):
     if isinstance(e, (bool, int, float, Fraction, np.number, np.bool_)):
         v = val_to_json(e)
         if v["k"] == "unrep":
+            if isinstance(e, float) and math.isfinite(e):
+                return {"t": "Const", "v": {"k": "fstr", "s": repr(e)}}
             raise Unserialisable(repr(e))
         return {"t": "Const", "v": v}
     if isinstance(e, tuple):
